@@ -488,7 +488,7 @@ deriving DecidableEq, Repr
 
 /-- what decides the fate of a request -/
 structure Scenario where
-  labelsUTF8 : Bool        -- the metric labels taken from the request (its resource/subresource) are valid UTF-8
+  requestInfoOK : Bool     -- `RequestInfoResolver.NewRequestInfo(req)` succeeds (it fails for `/api/v1/proxy`, `/api/v1/watch`)
   hostIsIP : Bool          -- `net.ParseIP(hostname) != nil`
   clusterKnown : Bool      -- `clusterManager.Get(hostname)`
   denyAll : Bool           -- feature gate DenyAllRequests
@@ -503,9 +503,8 @@ deriving DecidableEq, Repr
 inductive Outcome
   | notProxied                          -- handed to the control-plane handler
   | terminated (a : Answer)             -- answered by the gateway with a Status
-  | plainError (code : Nat)             -- answered by the gateway with `responsewriters.InternalError` (text/plain)
+  | plainError (code : Nat)             -- answered with `responsewriters.InternalError`: text/plain, not a Status
   | forward                             -- handed to the proxy handler
-  | aborted                             -- a panic tears the connection down: no answer at all
 deriving DecidableEq, Repr
 
 /-- `dispatcher.ServeHTTP` up to the proxy call -/
@@ -522,7 +521,7 @@ def withDispatcher (s : Scenario) : Outcome := if s.hostIsIP then .notProxied el
 /-- `WithNoLoggingImpersonation` -/
 def withImpersonation (s : Scenario) (next : Outcome) : Outcome :=
   match s.imp with
-  | .malformed => .plainError 500
+  | .malformed => .terminated (errorNegotiated newInternalError none)   -- `buildImpersonationRequests` error
   | .refused => .terminated (errorNegotiated newForbidden none)
   | _ => next
 
@@ -537,15 +536,13 @@ def withUpstreamInfo (s : Scenario) (next : Outcome) : Outcome :=
   else if s.denyAll then .terminated (terminateWithError (newTooManyRequests 0))
   else next
 
-/-- `WithPreProcessingMetrics` (on the way in) and the deferred `recordMetrics` of `WithTerminationMetrics` (on the way
-    out of every answer ≥ 400) put the request's resource — decoded path segments — into a Prometheus label;
-    client_golang panics on a label value that is not valid UTF-8, `HandleCrash` re-panics and net/http drops the
-    connection without an answer. -/
-def withMetrics (s : Scenario) (next : Outcome) : Outcome := if !s.labelsUTF8 then .aborted else next
+/-- `WithRequestInfo` (k8s.io/apiserver, aliased by the gateway's filters package): a resolver error is answered with
+    `responsewriters.InternalError` -/
+def withRequestInfo (s : Scenario) (next : Outcome) : Outcome := if !s.requestInfoOK then .plainError 500 else next
 
 /-- the chain in the order of `buildProxyHandlerChainFunc` (outermost first) -/
 def serve (s : Scenario) : Outcome :=
-  withMetrics s (withUpstreamInfo s (withAuthentication s (withImpersonation s (withDispatcher s))))
+  withRequestInfo s (withUpstreamInfo s (withAuthentication s (withImpersonation s (withDispatcher s))))
 
 /-- position of a filter in the regenerated application order (innermost = 0) -/
 def chainIdx (name : Str) (chain : List Str) : Option Nat :=
